@@ -67,6 +67,9 @@ Proof. intros. rewrite no_prefix_bypass_check. reflexivity. Qed.
 Lemma cred_facts_check : cred_facts_ok cred_facts_now = true /\ cred_facts_match_model cred_facts_now = true.
 Proof. vm_compute. split; reflexivity. Qed.
 
+Lemma user_ignored_only_known_check : forallb known_ignoring handlers_ignoring_user = true.
+Proof. vm_compute. reflexivity. Qed.
+
 (* ------------------------------------------------------------------------------------------------------------ *)
 (* Part B *)
 
